@@ -1149,6 +1149,8 @@ func runChild(cases []Case, listf string, from int, resf, curf string, seed int6
 				res.Problems = append(res.Problems, fmt.Sprintf("a well-formed request reached the kernel %d times", n))
 				res.Sig = append(res.Sig, "translate:not-forwarded:"+c.Endpoint)
 			}
+		} else if c.Mode == "reqid" {
+			res.Problems, res.Sig, res.Observed = runReqId(e, c)
 		} else {
 			res.Problems, res.Sig, res.Observed = runPair(e, c, seed)
 		}
@@ -1156,6 +1158,54 @@ func runChild(cases []Case, listf string, from int, resf, curf string, seed int6
 		out.Write(append(line, '\n'))
 		out.Sync()
 	}
+}
+
+// runReqId: the request id a client sends is a label, not an identity: two different requests that carry the same
+// request id and overlap in time are two requests, both reach the kernel and each gets its own answer.
+func runReqId(e *env, c Case) (problems, sigs []string, observed string) {
+	e.stub.mu.Lock()
+	e.stub.captured = nil
+	e.stub.script = scripted("CreateSubscription", 20100, "response", "full")
+	e.stub.delay = 300 * time.Millisecond
+	e.stub.mu.Unlock()
+	defer func() {
+		e.stub.mu.Lock()
+		e.stub.delay = 0
+		e.stub.mu.Unlock()
+	}()
+	var wg sync.WaitGroup
+	for i := 0; i < 2; i++ {
+		i := i
+		wg.Add(1)
+		go func() {
+			defer wg.Done()
+			id := fmt.Sprintf("sub%d", i)
+			if c.Endpoint == "reqid:http" {
+				e.doHTTP("POST", "/subscriptions", map[string]string{"request-id": "same-request-id"}, map[string]any{"id": id, "promiseId": "p", "timeout": 1 << 40, "recv": "default"})
+			} else {
+				ctx, cancel := context.WithTimeout(context.Background(), 10*time.Second)
+				defer cancel()
+				_, _ = e.sc.CreateSubscription(ctx, &pb.CreateSubscriptionRequest{Id: id, PromiseId: "p", Timeout: 1 << 40, Recv: &pb.Recv{Recv: &pb.Recv_Logical{Logical: "default"}}, RequestId: "same-request-id"})
+			}
+		}()
+		time.Sleep(30 * time.Millisecond)
+	}
+	wg.Wait()
+	e.stub.mu.Lock()
+	ids := map[string]bool{}
+	for _, r := range e.stub.captured {
+		if r.CreateSubscription != nil {
+			ids[r.CreateSubscription.Id] = true
+		}
+	}
+	n := len(e.stub.captured)
+	e.stub.mu.Unlock()
+	observed = fmt.Sprintf("%d kernel requests, ids %v", n, ids)
+	if n != 2 || !ids["sub0"] || !ids["sub1"] {
+		problems = append(problems, fmt.Sprintf("two different subscriptions sent with the same request id while the first was in flight: the kernel saw %d request(s) %v", n, ids))
+		sigs = append(sigs, "reqid:request-swallowed:"+c.Endpoint)
+	}
+	return
 }
 
 // runPair: the same logical request through every route of both protocols must become the same kernel request.
